@@ -323,6 +323,21 @@ def gen_lock(rng: random.Random, tier: str) -> dict:
                 st["mode"] = rng.choice(["r", "r", "w"])
             steps.append(st)
         workers.append({"at": rng.randint(0, spread), "steps": steps})
+    if kind == "Mutex":
+        # owner labels are documented as debugging aids: whatever the callers pass, the lock stays exclusive
+        scheme = rng.choice(["distinct", "none", "shared", "shared", "pairs", "mixed"])
+        for wi, w in enumerate(workers):
+            if scheme == "distinct":
+                w["owner"] = f"w{wi}"
+            elif scheme == "none":
+                w["owner"] = None
+            elif scheme == "shared":
+                w["owner"] = "entity-A"          # e.g. every handler of one entity passing owner=self.name
+            elif scheme == "pairs":
+                w["owner"] = f"entity-{wi % 2}"  # labels shared across groups of callers
+            else:
+                w["owner"] = rng.choice([None, "entity-A", "entity-A", f"w{wi}"])
+        case["owners"] = scheme
     case["workers"] = workers
     return case
 
@@ -347,6 +362,10 @@ def run_lock(case: dict) -> Result:
     led = run.ledger
     flagged: set = set()
     variant = comp if comp != "RWLock" else ("RWLock/max_readers" if cap else "RWLock/unbounded")
+    if comp == "Mutex":
+        labels = [w["owner"] for w in case["workers"] if w.get("owner") is not None]
+        if len(set(labels)) < len(labels):
+            variant = "Mutex/shared-owner-label"  # two callers pass the same non-None owner label
 
     def flag(oracle, shape, detail, witness=None):
         k = (oracle, shape)
@@ -355,9 +374,13 @@ def run_lock(case: dict) -> Result:
         flagged.add(k)
         res.add(oracle, comp, shape, detail, witness if witness is not None else {"history": led.history()})
 
+    def label(wi):
+        spec = case["workers"][wi]
+        return spec["owner"] if "owner" in spec else f"w{wi}"
+
     def do_acquire(r, wi):
         if comp == "Mutex":
-            return prim.acquire(owner=f"w{wi}")
+            return prim.acquire(owner=label(wi))
         if comp == "Semaphore":
             return prim.acquire(r.amount)
         return prim.acquire_read() if r.mode == "r" else prim.acquire_write()
@@ -365,7 +388,7 @@ def run_lock(case: dict) -> Result:
     def do_try(r, wi):
         if comp == "Mutex":
             free = not prim.is_locked
-            return prim.try_acquire(owner=f"w{wi}"), free
+            return prim.try_acquire(owner=label(wi)), free
         if comp == "Semaphore":
             free = prim.available >= r.amount
             return prim.try_acquire(r.amount), free
@@ -520,13 +543,23 @@ def gen_barrier(rng: random.Random, tier: str) -> dict:
     parties = rng.choice([1, 2, 2, 3, 4, 5])
     groups = rng.choice([1, 1, 2])
     nw = parties * groups
-    rounds = rng.randint(1, 3)
-    same = rng.random() < 0.3
+    ctl = []
+    if rng.random() < 0.5:
+        # reset()/abort() issued by a controller process while parties may be parked, then further rounds
+        for _ in range(rng.randint(1, 3)):
+            ctl.append({"at": rng.randint(0, 12), "op": rng.choice(["reset", "reset", "abort", "abort_reset"])})
+        if all(c["op"] == "abort" for c in ctl):
+            ctl.append({"at": max(c["at"] for c in ctl) + rng.randint(0, 3), "op": "reset"})
+    rounds = rng.randint(2, 5) if ctl else rng.randint(1, 3)
+    same = rng.random() < (0.1 if ctl else 0.3)
     workers = []
     for _ in range(nw):
         workers.append({"at": 0 if same else rng.randint(0, 4),
                         "rounds": [0 if same else rng.choice([0, 0, 1, 2, 5]) for _ in range(rounds)]})
-    return {"kind": "Barrier", "parties": parties, "workers": workers}
+    case = {"kind": "Barrier", "parties": parties, "workers": workers}
+    if ctl:
+        case["ctl"] = ctl
+    return case
 
 
 def run_barrier(case: dict) -> Result:
@@ -539,6 +572,20 @@ def run_barrier(case: dict) -> Result:
     run = Run(res, [prim])
     led = run.ledger
     flagged: set = set()
+    ctl = case.get("ctl", [])
+    tag = "/after-reset-or-abort" if ctl else ""
+
+    # Round bookkeeping at the client boundary (plain counting): a round is *complete* when its
+    # `parties`-th party has called wait(), or when reset()/abort() was called while it was open.
+    class Round:
+        __slots__ = ("members", "complete", "why")
+
+        def __init__(self):
+            self.members = []
+            self.complete = False
+            self.why = None
+
+    state = {"round": Round(), "broken": False, "ctl_calls": 0, "parked_at_ctl": 0}
 
     def flag(oracle, shape, detail, witness=None):
         k = (oracle, shape)
@@ -547,11 +594,24 @@ def run_barrier(case: dict) -> Result:
         flagged.add(k)
         res.add(oracle, comp, shape, detail, witness if witness is not None else {"history": led.history()})
 
+    def close_round(why):
+        rd = state["round"]
+        rd.complete = True
+        rd.why = why
+        state["round"] = Round()
+
     def worker(wi, spec):
         def proc():
             for work in spec["rounds"]:
                 yield work * TS
                 r = led.request(wi)
+                expect_broken = state["broken"]
+                rd = state["round"]
+                if not expect_broken:
+                    rd.members.append(r)
+                    r.extra = rd
+                    if len(rd.members) >= n:
+                        close_round("tripped")
 
                 def after_first(yielded, r=r):
                     r.blocked = yielded
@@ -559,36 +619,76 @@ def run_barrier(case: dict) -> Result:
                 try:
                     yield from drive(prim.wait(), after_first)
                 except RuntimeError as exc:
+                    if expect_broken or state["broken"]:
+                        r.outcome = "broken"  # documented: wait() raises on a broken barrier
+                        res.count("waits_refused_broken")
+                        continue
                     r.outcome = "error"
-                    flag("wait-raises", "no-abort-no-reset", f"wait() raised {exc!r}")
+                    if r.extra is not None and r in r.extra.members and not r.extra.complete:
+                        r.extra.members.remove(r)
+                    flag("wait-raises", "barrier-not-broken", f"wait() raised {exc!r} although the barrier is not broken")
                     return
-                group = r.rid // n
-                if len(led.reqs) < (group + 1) * n:
-                    flag("over-admission", "passed-before-all-parties-arrived",
-                         f"arrival #{r.rid} passed with only {len(led.reqs)} arrivals, its generation needs {(group + 1) * n}")
+                if r.extra is None:
+                    # admitted although the harness saw abort() without reset(): count it as an arrival of the open round
+                    rd = state["round"]
+                    rd.members.append(r)
+                    r.extra = rd
+                    if len(rd.members) >= n:
+                        close_round("tripped")
+                if not r.extra.complete:
+                    flag("over-admission", "passed-before-all-parties-arrived" + tag,
+                         f"arrival #{r.rid} passed although its round has only {len(r.extra.members)} of {n} parties "
+                         f"and no reset()/abort() released it")
                 led.granted(r)
                 res.count("grants_checked")
 
         return proc
 
+    def controller(spec):
+        def proc():
+            parked = len(state["round"].members)
+            state["ctl_calls"] += 1
+            state["parked_at_ctl"] += parked
+            if spec["op"] in ("abort", "abort_reset"):
+                close_round("abort")
+                state["broken"] = True
+                prim.abort()
+                if spec["op"] == "abort_reset":
+                    yield 1 * TS
+                    close_round("reset")
+                    state["broken"] = False
+                    prim.reset()
+            else:
+                close_round("reset")
+                state["broken"] = False
+                prim.reset()
+            return
+            yield  # pragma: no cover  (makes this a generator for every branch)
+
+        return proc
+
     for wi, spec in enumerate(case["workers"]):
         run.spawn(spec["at"], worker(wi, spec))
+    for spec in ctl:
+        run.spawn(spec["at"], controller(spec))
 
     def after_delivery(ev):
         res.count("counter_samples")
         if prim.waiting > n - 1:
-            flag("over-admission", "more-waiting-than-parties", f"waiting={prim.waiting} parties={n}")
+            flag("over-admission", "more-waiting-than-parties" + tag, f"waiting={prim.waiting} parties={n}")
 
     def quiescent(where):
         res.count("end_of_instant_checks")
-        arrivals = len(led.reqs)
         for r in led.reqs:
-            if r.s_grant is None and r.outcome is None and arrivals >= (r.rid // n + 1) * n:
-                flag("party-not-released", "generation-complete",
-                     f"{where}: arrival #{r.rid} still waits although {arrivals} parties arrived (parties={n})")
+            if r.s_grant is None and r.outcome is None and r.extra is not None and r.extra.complete:
+                flag("party-not-released", "generation-complete" + tag,
+                     f"{where}: arrival #{r.rid} still waits although its round is complete ({r.extra.why}, "
+                     f"{len(r.extra.members)} parties, parties={n})")
                 break
-        if prim.waiting != arrivals % n:
-            flag("held-plus-available", "waiting-count", f"{where}: waiting={prim.waiting}, arrivals={arrivals}, parties={n}")
+        open_members = len(state["round"].members)
+        if prim.waiting != open_members:
+            flag("held-plus-available", "waiting-count" + tag,
+                 f"{where}: waiting={prim.waiting}, parties in the open round={open_members}, parties={n}")
 
     status = run.go(after_delivery, lambda t: quiescent("end-of-instant"))
     if status == "spin":
@@ -599,11 +699,13 @@ def run_barrier(case: dict) -> Result:
         quiescent("fixpoint")
     res.count("requests", len(led.reqs))
     res.count("blocked_requests", sum(1 for r in led.reqs if r.blocked))
+    res.count("barrier_ctl_calls", state["ctl_calls"])
+    res.count("barrier_parties_parked_at_ctl", state["parked_at_ctl"])
     mb = max_overlap_blocked(led.reqs)
     waited = any(r.blocked and r.t_grant is not None and r.t_grant > r.t_req for r in led.reqs)
     later = len({w["at"] + sum(w["rounds"][:1]) for w in case["workers"]}) > 1
     res.nontrivial = mb >= 2 and (waited or (status == "spin" and later))
-    res.seen("components", comp)
+    res.seen("components", comp + tag)
     return res
 
 
@@ -625,7 +727,9 @@ def gen_condition(rng: random.Random, tier: str) -> dict:
         })
     # a last notify_all so that every consumer can finish
     producers.append({"at": 0 if same else rng.randint(9, 12), "n": "all", "hold": 0})
-    return {"kind": "Condition", "consumers": consumers, "producers": producers}
+    # owner labels of the condition's mutex: distinct per process, none, or one label shared by every process
+    return {"kind": "Condition", "consumers": consumers, "producers": producers,
+            "owners": rng.choice(["distinct", "distinct", "none", "shared", "shared"])}
 
 
 def run_condition(case: dict) -> Result:
@@ -656,9 +760,13 @@ def run_condition(case: dict) -> Result:
         if in_cs[0] > 1:
             flag("over-admission", "mutex-shared", f"{in_cs[0]} processes are inside the critical section")
 
+    def owner_label(own):
+        scheme = case.get("owners", "distinct")
+        return own if scheme == "distinct" else (None if scheme == "none" else "entity-A")
+
     def consumer(wi, spec):
         def proc():
-            yield from mutex.acquire(owner=f"c{wi}")
+            yield from mutex.acquire(owner=owner_label(f"c{wi}"))
             enter()
             r = led.request(wi, mode="wait")
             model_q.append(r)
@@ -689,7 +797,7 @@ def run_condition(case: dict) -> Result:
 
     def producer(wi, spec):
         def proc():
-            yield from mutex.acquire(owner=f"p{wi}")
+            yield from mutex.acquire(owner=owner_label(f"p{wi}"))
             enter()
             yield spec["hold"] * TS
             k = len(model_q) if spec["n"] == "all" else min(spec["n"], len(model_q))
@@ -770,10 +878,16 @@ def gen_connpool(rng: random.Random, tier: str) -> dict:
     for _ in range(nw):
         steps = [{"hold": rng.choice([0, 1, 2, 5, 10, 30]), "gap": rng.choice([0, 0, 1, 3, 12])} for _ in range(rng.randint(1, 3))]
         workers.append({"at": rng.randint(0, spread), "steps": steps})
-    return {
+    case = {
         "kind": "ConnectionPool", "max": mx, "min": mn, "latency": lat, "timeout": timeout, "idle": idle,
         "warmup": (rng.choice([None, 0, 0, 2]) if mn > 0 else None), "workers": workers,
     }
+    if rng.random() < 0.15:
+        # close_all() while clients hold connections / wait in the queue, then the pool is used again
+        case["close_at"] = rng.randint(1, spread + 15)
+        for w in workers:
+            w["steps"].append({"hold": rng.choice([0, 1, 5]), "gap": rng.choice([0, 2, 8])})
+    return case
 
 
 def run_connpool(case: dict) -> Result:
@@ -857,6 +971,8 @@ def run_connpool(case: dict) -> Result:
                 try:
                     conn = yield from drive(pool.acquire(), after_first)
                 except TimeoutError:
+                    if r.outcome == "timeout":
+                        continue  # woken with None by close_all(): it left the queue at the close
                     r.outcome = "timeout"
                     r.s_rel = led._tick()
                     res.count("timeouts")
@@ -869,18 +985,43 @@ def run_connpool(case: dict) -> Result:
                 led.granted(r)
                 res.count("grants_checked")
                 r.extra = conn.id
+                if conn.id <= closed_upto[0]:
+                    # handed over before close_all() and noticed after it: the connection is gone, not a holder
+                    r.outcome = "closed"
+                    led.released(r)
                 for o in led.holders():
                     if o is not r and o.extra == conn.id:
                         flag("over-admission", "connection-shared", f"connection {conn.id} handed to request {r.rid} while request {o.rid} still holds it")
                 yield st["hold"] * TS
-                evs = pool.release(conn)
-                led.released(r)
+                evs = pool.release(conn)  # a connection closed by close_all() is unknown to the pool: ignored
+                if r.s_rel is None:
+                    led.released(r)
                 yield 0.0, evs
 
         return proc
 
+    closed_upto = [0]  # highest connection id that existed when close_all() was called
+
+    def closer():
+        res.count("pool_close_all_calls")
+        res.count("pool_holders_at_close", len(led.holders()))
+        res.count("pool_waiters_at_close", pool.pending_requests)
+        for r in led.holders():
+            r.outcome = "closed"
+            led.released(r)
+        for r in led.pending():
+            if r.blocked:
+                r.outcome = "timeout"  # leaves the queue now; its acquire() raises at its next poll
+                r.s_rel = led._tick()
+        closed_upto[0] = max([cid for _, cid in handovers] + [pool.stats.connections_created])
+        pool.close_all()
+        return None
+        yield  # pragma: no cover
+
     for wi, spec in enumerate(case["workers"]):
         run.spawn(spec["at"], worker(wi, spec))
+    if case.get("close_at") is not None:
+        run.spawn(case["close_at"], closer)
     if case.get("warmup") is not None and mn > 0:
         ev = pool.warmup()
         ev.time = at(case["warmup"])
